@@ -258,7 +258,7 @@ theorem nc_succ (ih : NoCrashAt f) : NoCrashAt (f + 1) where
     · split
       · refine NC.bind (ih.expr _ hn.tail.tail) fun a _ => ?_
         (try simp only); split <;> first | exact NC.ok _ | exact NC.raise
-      · exact NC.raise
+      · exact NC.bind (ih.expr ts hn) fun _ _ => NC.ok _
     · exact NC.bind (ih.expr ts hn) fun _ _ => NC.ok _
   lit := fun ts hn => by
     simp only [parseLit]
